@@ -124,6 +124,8 @@ def injector_pair(kind, frame, rng_seed):
     a[0, 2], a[1, 2], a[2, 2] = 0.0, 1.0, 2.0            # every class occurs
     names = ["f0", "f1", "y"]
     f, t = sorted((rng.randint(0, n), rng.randint(0, n)))
+    if rng_seed % 4 == 0:
+        t = f                                          # an empty window: still a NEW object must come back
     col = lambda pos: names[pos] if frame else pos
     probs = {0.0: 0.5}
 
